@@ -79,7 +79,7 @@ theorem src_deserialize_eq {R : Type} (mk : Bits → List R → Int → Option R
     case hbody =>
       intro x i acc
       simp only [TonVerif.Proofs.SrcBocCells.src_deserialize_cell_eq, cellOfModel]
-      cases deserializeCell (List.drop i h.cellsData) h.fl.sizeBytes <;> rfl
+      cases deserializeCell (List.drop i h.cellsData) h.fl.sizeBytes <;> first | rfl | simp
     case hF => intro a b l; rfl
     rw [hlen, List.drop_zero]
     cases hr : readCells h.cellsNum h.cellsData h.fl.sizeBytes with
